@@ -11,7 +11,8 @@
  *                                      obs = 1: observable
  *     unk    - | mask/flags           coap_resource_unknown_init2
  *     prx    - | mask/flags/h+h+...   coap_resource_proxy_uri_init2, h = host name bytes token
- *     hact   code/opts/payload        what every handler does: opts = - | num=hex+num=hex
+ *     hact   code/opts/payload[/A]    what every handler does: opts = - | num=hex+num=hex;
+ *                                     /A: it calls coap_register_async(session, request, 0) and sets nothing
  *     loc    u|m                      destination of the request: the bind address | 224.0.1.187
  *     dgram  hex
  * result line: events separated by blanks, "-" if none
@@ -36,6 +37,7 @@ static void ev_open(void) {
 
 /* ------------------------------------------------------------------ handler behaviour */
 static int h_code = 0;
+static int h_async = 0;      /* the handler defers its answer: coap_register_async(.., 0) */
 static struct { unsigned num; uint8_t *v; size_t n; } h_opts[64];
 static int h_nopts = 0;
 static uint8_t *h_payload = NULL;
@@ -45,6 +47,8 @@ static void parse_hact(char *s) {
   char *c = strtok(s, "/");
   char *o = strtok(NULL, "/");
   char *p = strtok(NULL, "/");
+  char *a = strtok(NULL, "/");
+  h_async = a && a[0] == 'A';
   for (int i = 0; i < h_nopts; i++) free(h_opts[i].v);
   h_nopts = 0;
   free(h_payload);
@@ -84,7 +88,7 @@ static void on_request(int slot, coap_resource_t *r, coap_session_t *s, const co
   coap_string_t *up = coap_get_uri_path(req);
   size_t len = 0;
   const uint8_t *data = NULL;
-  (void)s;
+  if (!evf) return;          /* outside a case (never expected) */
   fputs("H[r=", evf);
   show_bytes(evf, rp->s, rp->length);
   fprintf(evf, " s=%d c=%d k=", slot, (int)coap_pdu_get_code(req));
@@ -99,6 +103,11 @@ static void on_request(int slot, coap_resource_t *r, coap_session_t *s, const co
   fputs(" p=", evf);
   if (coap_get_data(req, &len, &data) && len) show_bytes(evf, data, len); else fputc('-', evf);
   fputs("] ", evf);
+  if (h_async) {
+    /* separate response later: nothing is set now (Empty ACK for a CON) */
+    coap_register_async(s, req, 0);
+    return;
+  }
   /* what the handler sets */
   if (h_code) coap_pdu_set_code(resp, (coap_pdu_code_t)h_code);
   for (int i = 0; i < h_nopts; i++)
@@ -253,18 +262,8 @@ static void on_send(size_t idx) {
   fprintf(evf, "\001%zu\002", idx);
 }
 
-static void c10(void) {
-  if (vntok < 9) { puts("ERROR args"); return; }
-  if (!setup(vtok[1], vtok[2], vtok[3], vtok[4], vtok[5])) { puts("ERROR setup"); return; }
-  parse_hact(vtok[6]);
-  int mcast = vtok[7][0] == 'm';
-  size_t n;
-  uint8_t *dg = bytes_of_tok(vtok[8], &n);
-  coap_address_t local;
-  case_no++;
-  vn_addr4(&cur_peer, 0x0a000000u + (uint32_t)(case_no / 40000) + 1, (uint16_t)(20000 + case_no % 40000));
-  vn_addr4(&local, 0xe00001bbu, ntohs(ep->bind_addr.addr.sin.sin_port));
-  vn_prng_seed(1);
+/* one datagram: inject, let multicast delays pass, return the events as text ("-" if none) */
+static char *run_step(const uint8_t *dg, size_t n, int mcast, const coap_address_t *local) {
   vn_log_reset();
   ev_open();
   /* the query string the built-in .well-known/core handler will see */
@@ -275,7 +274,7 @@ static void c10(void) {
     coap_delete_pdu(pdu);
   }
   vn_on_send = on_send;
-  vn_inject_ep(ctx, ep, &cur_peer, mcast ? &local : NULL, dg, n);
+  vn_inject_ep(ctx, ep, &cur_peer, mcast ? local : NULL, dg, n);
   if (mcast) {
     /* multicast responses are delayed by up to DEFAULT_LEISURE: let the timers fire */
     coap_tick_t waited = 0;
@@ -303,18 +302,43 @@ static void c10(void) {
       } else fputc(raw[i], evf);
     }
     fclose(evf);
+    evf = NULL;
     free(raw);
   }
-  if (ev_len == 0) puts("-");
-  else {
-    while (ev_len && ev[ev_len - 1] == ' ') ev[--ev_len] = 0;
-    puts(ev);
-  }
-  free(ev);
-  ev = NULL;
   if (last_query && last_query != (coap_string_t *)-1) coap_delete_string(last_query);
   last_query = NULL;
-  free(dg);
+  while (ev_len && ev[ev_len - 1] == ' ') ev[--ev_len] = 0;
+  char *res = strdup(ev_len ? ev : "-");
+  free(ev);
+  ev = NULL;
+  return res;
+}
+
+/* dgram = hex | hex+hex+...: several datagrams from the same peer, one after the other (no
+ * time passes in between); the result line joins the per-datagram events with " | " */
+static void c10(void) {
+  if (vntok < 9) { puts("ERROR args"); return; }
+  if (!setup(vtok[1], vtok[2], vtok[3], vtok[4], vtok[5])) { puts("ERROR setup"); return; }
+  parse_hact(vtok[6]);
+  int mcast = vtok[7][0] == 'm';
+  coap_address_t local;
+  case_no++;
+  vn_addr4(&cur_peer, 0x0a000000u + (uint32_t)(case_no / 40000) + 1, (uint16_t)(20000 + case_no % 40000));
+  vn_addr4(&local, 0xe00001bbu, ntohs(ep->bind_addr.addr.sin.sin_port));
+  vn_prng_seed(1);
+  char *save = NULL;
+  int first = 1;
+  for (char *part = strtok_r(vtok[8], "+", &save); part; part = strtok_r(NULL, "+", &save)) {
+    size_t n;
+    uint8_t *dg = bytes_of_tok(part, &n);
+    char *r = run_step(dg, n, mcast, &local);
+    if (!first) fputs(" | ", stdout);
+    first = 0;
+    fputs(r, stdout);
+    free(r);
+    free(dg);
+  }
+  putchar('\n');
   /* let the session of this case expire so that no state leaks into the next case */
   for (int guard = 0; guard < 64; guard++) {
     unsigned w = vn_prepare(ctx);   /* retransmissions of a separate CON response, then idle expiry */
